@@ -11,11 +11,16 @@
 #ifndef VF_NVAR
 #define VF_NVAR 2
 #endif
+static double ab(double v) { return v < 0 ? -v : v; }
+// v >= 0, where v is a sum of products whose absolute values add up to 'scale'
+static bool ge0(double v, double scale)
+{
 #ifdef VF_NATIVE
-#define VF_SLACK 1e-9 // native runs compute in rounded arithmetic
+  return v >= -1e-9 * (1. + scale); // native runs compute in rounded arithmetic
 #else
-#define VF_SLACK 0.
+  return v >= 0.;
 #endif
+}
 static double EV[VF_NVAR];          // what the stub returned (for the oracle)
 static double VV[VF_NVAR][VF_NVAR]; // VV[i][k]: component i of eigenvector k
 
@@ -72,14 +77,17 @@ static void run(bool alias)
   else
   {
     // positive semi-definite <=> every principal minor is >= 0
-    for (int i = 0; i < n; i++) vf_assert_id(m[i][i] >= -VF_SLACK, "rebuilt matrix: diagonal >= 0");
+    for (int i = 0; i < n; i++) vf_assert_id(ge0(m[i][i], 0.), "rebuilt matrix: diagonal >= 0");
     for (int i = 0; i < n; i++)
       for (int j = 0; j < i; j++)
-        vf_assert_id(m[i][i] * m[j][j] - m[i][j] * m[i][j] >= -VF_SLACK, "rebuilt matrix: 2x2 principal minors >= 0");
+        vf_assert_id(ge0(m[i][i] * m[j][j] - m[i][j] * m[i][j], ab(m[i][i] * m[j][j]) + m[i][j] * m[i][j]),
+                     "rebuilt matrix: 2x2 principal minors >= 0");
 #if VF_NVAR == 3
     double det = m[0][0] * (m[1][1] * m[2][2] - m[1][2] * m[2][1]) - m[0][1] * (m[1][0] * m[2][2] - m[1][2] * m[2][0]) +
                  m[0][2] * (m[1][0] * m[2][1] - m[1][1] * m[2][0]);
-    vf_assert_id(det >= -VF_SLACK, "rebuilt matrix: determinant >= 0");
+    double sc = ab(m[0][0] * m[1][1] * m[2][2]) + ab(m[0][0] * m[1][2] * m[2][1]) + ab(m[0][1] * m[1][0] * m[2][2]) +
+                ab(m[0][1] * m[1][2] * m[2][0]) + ab(m[0][2] * m[1][0] * m[2][1]) + ab(m[0][2] * m[1][1] * m[2][0]);
+    vf_assert_id(ge0(det, sc), "rebuilt matrix: determinant >= 0");
 #endif
   }
   if (!alias) // the input matrix is not modified
